@@ -22,14 +22,25 @@ def bounds(tier):
 
 
 def cases(tier, seed):
+    # one case per (scheme, order): all option combinations of that family are instantiated and used in ONE process, first in
+    # catalogue order and then again (fresh instances) in reverse order, so that state shared between differently configured
+    # instances (class-level / module-level caches) shows up deterministically, whatever worker runs the case
+    groups = {}
     for spec in MC.schemes(tier, with_registry=False):
         if spec[0] == "identity":
             continue
-        yield f"C06|{spec[0]}|{spec[1]}", {"spec": spec, "tier": tier}
+        groups.setdefault((spec[0], spec[2].get("order", spec[2].get("bits_per_symbol"))), []).append(spec)
+    for (scheme, order), specs in groups.items():
+        yield f"C06|{scheme}|order={order}", {"specs": specs, "tier": tier}
 
 
 def component_of(p):
-    return p["spec"][0]
+    return p["specs"][0][0]
+
+
+def execute(p, res):
+    for spec in list(p["specs"]) + (list(reversed(p["specs"])) if len(p["specs"]) > 1 else []):
+        run_spec({"spec": spec, "tier": p["tier"]}, res)
 
 
 def point_set(pts, g, real_only):
@@ -56,7 +67,7 @@ def point_set(pts, g, real_only):
     return out
 
 
-def execute(p, res):
+def run_spec(p, res):
     import torch
     spec = p["spec"]
     scheme, cfg, prm = spec
